@@ -9,6 +9,11 @@
 //!                      duplicate rows, zero rows/columns, repeated sub-rows per block, invertible by
 //!                      construction), block sizes {1, 2, 3, cols, two random ones}
 //!   --stride S         take every S-th matrix of the exhaustive family (offset seed % S)
+//!   --special          a fixed list of matrices built with the constructors zeros / ones / id / unit_vector, among them
+//!                      all-ones matrices with 255, 256 and 576 ones (the Hamming-weight helpers sum into u8)
+//!
+//! Per matrix also: all four `Mul` overloads (&a*&b, &a*b, a*&b, a*b), row_weight / weight / unit_rows, the
+//! constructors zeros / ones / id / unit_vector of the matrix's shape, Index / IndexMut<(usize, usize)>, Display.
 
 use crate::util::{arg_num, guarded, Tr};
 use quizx::linalg::{ColOps, Mat2, RowOps};
@@ -201,7 +206,9 @@ fn one(m: &Mat2, bss: &[usize], kind: &str, r: &mut StdRng, tr: &mut Tr, c: &mut
         Err(msg) => tr.emit(panic_ev("hstack", msg, json!({"b": mj(&b)}), c)),
         Ok(o) => tr.emit(json!({"k": "hstack", "b": mj(&b), "res": "ok", "out": mj(&o)})),
     }
-    // products: m * b (random b), m * m^T, and, when an inverse was returned, nothing more (TLC multiplies itself)
+    // products: m * b (random b) through all four operand-ownership overloads of Mul, m * m^T through one of them in
+    // turn; TLC multiplies itself (the same MulOK for every overload)
+    const FORMS: [&str; 4] = ["ref_ref", "ref_own", "own_ref", "own_own"];
     for j in 0..2 {
         let b = if j == 0 {
             let k = r.random_range(1..=cols.min(4) + 1);
@@ -209,11 +216,98 @@ fn one(m: &Mat2, bss: &[usize], kind: &str, r: &mut StdRng, tr: &mut Tr, c: &mut
         } else {
             m.transpose()
         };
-        match guarded(|| m * &b) {
-            Err(msg) => tr.emit(panic_ev("mul", msg, json!({"b": mj(&b)}), c)),
-            Ok(o) => tr.emit(json!({"k": "mul", "b": mj(&b), "res": "ok", "out": mj(&o)})),
+        for (fi, form) in FORMS.iter().enumerate() {
+            if j == 1 && fi != c.matrices % 4 {
+                continue;
+            }
+            match guarded(|| match *form {
+                "ref_ref" => m * &b,
+                "ref_own" => m * b.clone(),
+                "own_ref" => m.clone() * &b,
+                _ => m.clone() * b.clone(),
+            }) {
+                Err(msg) => tr.emit(panic_ev("mul", msg, json!({"b": mj(&b), "form": form}), c)),
+                Ok(o) => tr.emit(json!({"k": "mul", "form": form, "b": mj(&b), "res": "ok", "out": mj(&o)})),
+            }
         }
     }
+    // Hamming-weight helpers.  They sum into u8: a matrix with more than 255 ones makes weight() overflow (a panic in
+    // this overflow-checked build, a wrapped value otherwise); TLC counts that as an observation, see Trace_F2
+    match guarded(|| (0..rows).map(|i| m.row_weight(i) as usize).collect::<Vec<usize>>()) {
+        Err(msg) => tr.emit(panic_ev("row_weight", msg, json!({}), c)),
+        Ok(ws) => tr.emit(json!({"k": "row_weight", "res": "ok", "ret": ws})),
+    }
+    match guarded(|| m.weight() as usize) {
+        Err(msg) => tr.emit(panic_ev("weight", msg, json!({"ret": 0}), c)),
+        Ok(w) => tr.emit(json!({"k": "weight", "res": "ok", "ret": w})),
+    }
+    match guarded(|| m.unit_rows()) {
+        Err(msg) => tr.emit(panic_ev("unit_rows", msg, json!({}), c)),
+        Ok(us) => tr.emit(json!({"k": "unit_rows", "res": "ok", "ret": us})),
+    }
+    // constructors of the matrix's shape
+    let ui = r.random_range(0..rows);
+    for kind in ["zeros", "ones", "id", "unit_vector"] {
+        let extra = json!({"kind": kind, "rows": rows, "cols": cols, "i": ui});
+        match guarded(|| match kind {
+            "zeros" => Mat2::zeros(rows, cols),
+            "ones" => Mat2::ones(rows, cols),
+            "id" => Mat2::id(rows),
+            _ => Mat2::unit_vector(rows, ui),
+        }) {
+            Err(msg) => tr.emit(panic_ev("ctor", msg, extra, c)),
+            Ok(o) => tr.emit(json!({"k": "ctor", "kind": kind, "rows": rows, "cols": cols, "i": ui, "res": "ok", "out": mj(&o),
+                                    "nrows": o.num_rows(), "ncols": o.num_cols()})),
+        }
+    }
+    // Index<(usize, usize)>: the whole matrix read entry by entry; IndexMut<(usize, usize)>: a few entries written
+    match guarded(|| (0..rows).map(|i| (0..cols).map(|j| m[(i, j)]).collect::<Vec<u8>>()).collect::<Vec<_>>()) {
+        Err(msg) => tr.emit(panic_ev("index", msg, json!({}), c)),
+        Ok(o) => tr.emit(json!({"k": "index", "res": "ok", "out": o})),
+    }
+    {
+        let n = r.random_range(1..=4usize);
+        let sets: Vec<(usize, usize, u8)> = (0..n).map(|_| (r.random_range(0..rows), r.random_range(0..cols), r.random_bool(0.5) as u8)).collect();
+        let mut y = m.clone();
+        match guarded(|| {
+            for (i, j, v) in &sets {
+                y[(*i, *j)] = *v;
+            }
+        }) {
+            Err(msg) => tr.emit(panic_ev("index_mut", msg, json!({}), c)),
+            Ok(()) => tr.emit(json!({"k": "index_mut", "sets": sets.iter().map(|(i, j, v)| json!([i, j, v])).collect::<Vec<_>>(), "res": "ok", "out": mj(&y)})),
+        }
+    }
+    // Display: one line "[ x x x ]" per row (observation + L1; the property fixes no text format)
+    match guarded(|| format!("{m}")) {
+        Err(msg) => tr.emit(panic_ev("display", msg, json!({}), c)),
+        Ok(s) => tr.emit(json!({"k": "display", "res": "ok", "lines": s.lines().map(|x| x.to_string()).collect::<Vec<_>>(), "nl": s.ends_with('\n'),
+                                "ascii": s.chars().all(|ch| ch == '\n' || ch == ' ' || ch.is_ascii_graphic())})),
+    }
+}
+
+/// matrices built with the public constructors; the all-ones ones straddle the u8 range of weight()
+fn special_matrices() -> Vec<Mat2> {
+    let mut v = vec![
+        Mat2::ones(1, 1),
+        Mat2::zeros(5, 7),
+        Mat2::ones(15, 17), // 255 ones: the largest weight a u8 holds
+        Mat2::ones(17, 15),
+        Mat2::ones(16, 16), // 256 ones
+        Mat2::ones(24, 11), // 264 ones
+        Mat2::ones(24, 24), // 576 ones
+        Mat2::id(24),
+        Mat2::unit_vector(24, 23),
+        Mat2::unit_vector(1, 0),
+    ];
+    // 254 / 255 / 256 / 257 ones inside 24 x 24
+    for ones in [254usize, 255, 256, 257] {
+        v.push(Mat2::build(24, 24, |i, j| i * 24 + j < ones));
+    }
+    // a permutation matrix (every row a unit row) and one with a single heavy row
+    v.push(Mat2::build(9, 9, |i, j| j == (i * 4) % 9));
+    v.push(Mat2::build(6, 24, |i, j| i == 2 || j == i));
+    v
 }
 
 /// seeded random matrix of one of several structural kinds
@@ -331,6 +425,17 @@ pub fn record(args: &[String], seed: u64, tr: &mut Tr) -> Value {
                 exhaustive += 1;
             }
             idx += 1;
+        }
+    }
+    // ---- matrices from the constructors ----
+    if args.iter().any(|a| a == "--special") {
+        for m in special_matrices() {
+            let cols = m.num_cols();
+            let mut bss = vec![1, 2, 3, cols];
+            bss.retain(|b| *b >= 1 && *b <= cols);
+            bss.sort();
+            bss.dedup();
+            one(&m, &bss, "special", &mut r, tr, &mut c);
         }
     }
     // ---- seeded random matrices ----
